@@ -6,7 +6,8 @@ MCTagA == [s \in 1..3 |-> IF s <= 2 THEN 1 ELSE 2]
 MCTagB == [s \in 1..3 |-> IF s = 2 THEN 2 ELSE 1]
 MCValsFull == -1..3
 MCValsTwo == {-1, 2}
-MCValsThree == {-1, 0, 3}
+MCValsFour == {-1, 0, 1, 3}
+MCValsThree == {-1, 0, 2}
 TablesAgg == {"agg"}
 TablesOT == {"ot", "red"}
 TablesAll == {"agg", "ot", "red"}
